@@ -4,6 +4,7 @@ import (
 	"encoding/json"
 	"errors"
 	"fmt"
+	"os"
 	"reflect"
 	"sort"
 	"strings"
@@ -232,6 +233,23 @@ func (w *World) judgePersist(op *Op, t *Tree, root *mast.Root, reach []string, s
 		w.st.Probes["root-name-predicted-independently"]++
 	case "C13":
 		w.st.OracleEvals++
+		// with the real file store mirrored behind the disk: it keeps nothing but nodes that
+		// were passed to Store (no scratch copies left behind by completed, uncrashed writes)
+		if t.disk < len(w.mirrorDirs) && w.disks[t.disk].mirror != nil {
+			d := w.disks[t.disk]
+			if d.MirrorErr != nil {
+				w.failFor("C18", "store-fails/file", "file store behind the disk failed: %v", d.MirrorErr)
+				return
+			}
+			ents, _ := os.ReadDir(w.mirrorDirs[t.disk])
+			for _, en := range ents {
+				if !d.Has(en.Name()) {
+					w.fail("file-store-left-garbage", "after MakeRoot the file store's directory holds %q, which is not a node that was stored (%d files, %d nodes stored)", en.Name(), len(ents), d.Len())
+					return
+				}
+			}
+			w.st.Probes["file-store-directory-inspected"]++
+		}
 		reachSet := map[string]bool{}
 		for _, r := range reach {
 			reachSet[r] = true
